@@ -682,7 +682,7 @@ def main():
     log('[C02] part D done %.1fs' % (time.time() - chk.t0))
 
     # ---------------- part E: modes (none / html / json), lexically scoped ----------------
-    nE = 15000 if chk.thorough else 1500
+    nE = 15000 if chk.thorough else 4000
     ecases = []
     for j in range(nE):
         ninc = rng.below(3)
